@@ -134,3 +134,21 @@ M('C18', 'item-tagged-current', POOLF,
         Ok(ResourcePoolItem::new(self, resource))""", ['item:tag'], 'F9c comes back')
 M('C18', 'no-notify', POOLF,
   '        self.not_empty.notify_one();\n', '', ['notify'], 'waiters never woken')
+
+# ---------------------------------------------------------------- C05
+PROOF = STM + 'proof_system/concatenation/proof.rs'
+M('C05', 'prealloc-from-wire-count', PROOF,
+  '        let mut sig_reg_list = Vec::new();\n', '        let mut sig_reg_list = Vec::with_capacity(total_sigs);\n', ['alloc'], 'F5 comes back')
+M('C05', 'unchecked-offset-add', PROOF,
+  """            let sig_reg_end = sig_reg_start
+                .checked_add(sig_reg_size)
+                .ok_or(AggregateSignatureError::SerializationError)?;""",
+  """            let sig_reg_end = sig_reg_start + sig_reg_size;""", ['arith'], 'F5 comes back')
+M('C05', 'panicking-slice-index', PROOF,
+  """                bytes
+                    .get(sig_reg_start..sig_reg_end)
+                    .ok_or(AggregateSignatureError::SerializationError)?,
+            )?;""", """                &bytes[sig_reg_start..sig_reg_end],
+            )?;""", ['index'], 'get() replaced by a panicking index')
+M('C05', 'unwrap-in-decoder', STM + 'membership_commitment/merkle_tree/commitment.rs',
+  'u64_bytes.copy_from_slice(bytes.get(..8).ok_or(MerkleTreeError::SerializationError)?);', 'u64_bytes.copy_from_slice(bytes.get(..8).unwrap());', ['panic:'], 'new unwrap on attacker-controlled length')
